@@ -8,5 +8,6 @@ CONSTANTS
   AllocBelow = 1
   AllocAbove = 2
   ByteSized = FALSE
-INVARIANTS TypeOK Bounded LastAgrees
-PROPERTIES KeepsPrefix StorageOnly OtherUntouched SwapExchanges InsertShifts ThrowsIffBeyond
+  Lifetime = TRUE
+INVARIANTS TypeOK Bounded LastAgrees LifeBalanced
+PROPERTIES CopiesWhole NoNewValues KeepsPrefix StorageOnly OtherUntouched SwapExchanges InsertShifts ThrowsIffBeyond
